@@ -1252,6 +1252,344 @@ Example usable_mutual_nonvacuous :
   [WHandled (proven_ident ex_rsp); WHandled (proven_ident ex_rsp)].
 Proof. repeat split; vm_compute; reflexivity. Qed.
 
+(* ---- cross dial ------------------------------------------------------------------------------------ *)
+Ltac xsimp :=
+  cbn [h1 h2 beg1 beg2 oreg1 oreg2 short1 short2 sA xset1 xset2 xset_s] in *.
+
+Lemma registered_vI c w id : Inv c w -> registered w = Some id -> vI c id.
+Proof.
+  intros (_ & (Hr & _) & _) E.
+  destruct (rpc w); unfold quiet in Hr; dest; try congruence.
+  - destruct H0 as [(id' & R1 & R2 & _)|(B & _)]; congruence.
+  - destruct H0 as [(id' & R1 & R2 & _)|(B & _)]; congruence.
+Qed.
+
+Lemma closed_reason c w : Inv c w -> r_closed w = true -> reason c w.
+Proof.
+  intros (_ & (Hr & _) & _) E.
+  destruct (rpc w); unfold quiet in Hr; dest; try congruence.
+  - destruct H0 as [(id' & _ & _ & R3 & _)|(_ & _ & B)]; [congruence|exact B].
+  - destruct H0 as [(id' & _ & _ & R3 & _)|(_ & _ & B)]; [congruence|exact B].
+Qed.
+
+Lemma r_closed_stable c w a : r_closed w = true -> r_closed (step Current c w a) = true.
+Proof.
+  intros E. destruct a as [| |k|]; cbn [step]; auto.
+  - pose proof (step_i_frame c w) as F. cbv zeta in F. dest. congruence.
+  - unfold step_r. destruct (rpc w); simp; auto;
+      repeat match goal with
+             | |- context [match ?x with _ => _ end] => destruct x; simp; auto
+             end.
+Qed.
+
+(* one dialling Connect with its handshake world *)
+Definition DInv (c : cfg) (h : world) (beg : bool) (oreg : option ident) : Prop :=
+  Inv c h /\ (beg = false -> h = init) /\
+  match oreg with
+  | Some id => ipc h = IReturn id \/ ipc h = IOpen id
+  | None => forall id, ipc h <> IOpen id
+  end.
+
+Lemma dinv_dial c h oreg :
+  DInv c h true oreg ->
+  DInv c (fst (dial_step c h oreg)) true (snd (dial_step c h oreg)) /\
+  registered (fst (dial_step c h oreg)) = registered h /\
+  r_closed (fst (dial_step c h oreg)) = r_closed h /\
+  (forall j, oreg = Some j -> snd (dial_step c h oreg) = Some j) /\
+  (forall id, ipc h = IOpen id -> ipc (fst (dial_step c h oreg)) = IOpen id).
+Proof.
+  intros (HI & _ & H3). unfold dial_step.
+  assert (Base : forall o, (forall id, ipc h = IReturn id -> o = Some id) ->
+            match o with
+            | Some id => ipc h = IReturn id \/ ipc h = IOpen id
+            | None => forall id, ipc h <> IOpen id
+            end ->
+            DInv c (step_i c h) true o /\ registered (step_i c h) = registered h /\
+            r_closed (step_i c h) = r_closed h /\
+            (forall id, ipc h = IOpen id -> ipc (step_i c h) = IOpen id)).
+  { intros o Hadd Ho.
+    pose proof (step_inv c h I HI) as HI'. cbn [step] in HI'.
+    pose proof (step_i_frame c h) as F. cbv zeta in F. dest.
+    split; [|repeat split; auto; intros; apply step_i_ipc_open; auto].
+    split; [exact HI'|]. split; [discriminate|].
+    destruct o as [id|].
+    - destruct Ho as [Ho|Ho]; right; [unfold step_i; rewrite Ho; reflexivity|apply step_i_ipc_open; auto].
+    - intros id Hc. apply step_i_to_open in Hc. destruct Hc as [Hc|Hc].
+      + apply Hadd in Hc. discriminate.
+      + apply (Ho id); auto. }
+  assert (Gen : (forall id, ipc h = IReturn id -> oreg = Some id) ->
+            DInv c (fst (step_i c h, oreg)) true (snd (step_i c h, oreg)) /\
+            registered (fst (step_i c h, oreg)) = registered h /\
+            r_closed (fst (step_i c h, oreg)) = r_closed h /\
+            (forall j, oreg = Some j -> snd (step_i c h, oreg) = Some j) /\
+            (forall id, ipc h = IOpen id -> ipc (fst (step_i c h, oreg)) = IOpen id)).
+  { intros Hadd. destruct (Base oreg Hadd H3) as (B1 & B2 & B3 & B4). cbn [fst snd].
+    split; [exact B1|]. split; [exact B2|]. split; [exact B3|]. split; [auto|exact B4]. }
+  clear Base.
+  destruct (ipc h) eqn:Ep; try (apply Gen; intros; congruence).
+  destruct oreg as [j|] eqn:Eo.
+  - apply Gen. intros id0 E0. destruct H3 as [H3|H3]; congruence.
+  - cbn [fst snd]. split; [|split; [reflexivity|split; [reflexivity|split; [discriminate|discriminate]]]].
+    split; [exact HI|]. split; [discriminate|]. left. exact Ep.
+Qed.
+
+Lemma dinv_r c h oreg :
+  DInv c h true oreg ->
+  DInv c (step_r Current c h) true oreg /\
+  (forall j, registered h = Some j -> registered (step_r Current c h) = Some j) /\
+  (r_closed h = true -> r_closed (step_r Current c h) = true) /\
+  ipc (step_r Current c h) = ipc h.
+Proof.
+  intros (HI & _ & H3).
+  pose proof (step_inv c h R HI) as HI'. cbn [step] in HI'.
+  pose proof (step_r_frame Current c h) as F. cbv zeta in F. destruct F as (Ei & _).
+  split; [|split; [|split]]; auto.
+  - split; [exact HI'|]. split; [discriminate|]. rewrite Ei. exact H3.
+  - intros j Ej. apply (registered_stable c h R); auto.
+  - intros E. apply (r_closed_stable c h R); auto.
+Qed.
+
+Definition xw_inv (x : xworld) (s : wstate) : Prop :=
+  match s with
+  | WNew | WWait => True
+  | WLook2 => regBA x <> None \/ r_closed (h1 x) = true
+  | WHandled j => registered (h1 x) = Some j \/ oreg2 x = Some j
+  | WUnknown => r_closed (h1 x) = true
+  | WTorn => False
+  end.
+
+Definition XInv (a b : node) (x : xworld) : Prop :=
+  DInv (c12 a b) (h1 x) (beg1 x) (oreg1 x) /\ DInv (c21 a b) (h2 x) (beg2 x) (oreg2 x) /\
+  (short1 x <> None -> beg1 x = false) /\ (short2 x <> None -> beg2 x = false) /\
+  (forall id, short1 x = Some id -> registered (h2 x) = Some id) /\
+  (sA x <> [] -> short1 x <> None \/ exists id, ipc (h1 x) = IOpen id) /\
+  Forall (xw_inv x) (sA x).
+
+Definition xmono (x x' : xworld) : Prop :=
+  (forall j, registered (h1 x) = Some j -> registered (h1 x') = Some j) /\
+  (forall j, oreg2 x = Some j -> oreg2 x' = Some j) /\
+  (r_closed (h1 x) = true -> r_closed (h1 x') = true).
+
+Lemma xw_transport x x' l : xmono x x' -> Forall (xw_inv x) l -> Forall (xw_inv x') l.
+Proof.
+  intros (M1 & M2 & M3) H. eapply Forall_impl; [|exact H].
+  intros s; destruct s; cbn; auto.
+  - intros [Hn|Hc]; [left|right; auto]. unfold regBA, first_some in *.
+    destruct (registered (h1 x)) eqn:E1.
+    + rewrite (M1 _ eq_refl). discriminate.
+    + destruct (oreg2 x) eqn:E2; [|congruence]. rewrite (M2 _ eq_refl).
+      destruct (registered (h1 x')); discriminate.
+  - intros [Hn|Hn]; [left|right]; auto.
+Qed.
+
+Lemma xinv_init a b : XInv a b xinit.
+Proof.
+  assert (D : forall c, DInv c init false None).
+  { intros c. split; [apply inv_init|]. split; auto. cbn. discriminate. }
+  unfold XInv; cbn. split; [apply D|]. split; [apply D|].
+  repeat split; auto; intros; try discriminate; try contradiction.
+Qed.
+
+Lemma dinv_init_oreg c h oreg : DInv c h false oreg -> oreg = None.
+Proof.
+  intros (_ & Hb & H3). rewrite (Hb eq_refl) in H3. destruct oreg; auto.
+  cbn in H3. destruct H3; discriminate.
+Qed.
+
+
+Lemma xmono_refl_fields x x' :
+  registered (h1 x') = registered (h1 x) -> oreg2 x' = oreg2 x -> r_closed (h1 x') = r_closed (h1 x) ->
+  xmono x x'.
+Proof. intros E1 E2 E3. unfold xmono. rewrite E1, E2, E3. auto. Qed.
+
+Lemma xstep_d1_inv a b x : XInv a b x -> XInv a b (xstep_d1 a b x).
+Proof.
+  intros HX. pose proof HX as (D1 & D2 & S1 & S2 & S3 & S4 & S5). unfold xstep_d1.
+  destruct (short1 x) eqn:Es; [exact HX|].
+  destruct (beg1 x) eqn:Eb.
+  - destruct (dinv_dial _ _ _ D1) as (D1' & Er & Ec & Eo & Ei).
+    destruct (dial_step (c12 a b) (h1 x) (oreg1 x)) as (h, o) eqn:Ed. cbn [fst snd] in *.
+    unfold XInv; xsimp. split; [exact D1'|]. split; [exact D2|].
+    split; [intros Hn; exfalso; apply Hn; reflexivity|]. split; [exact S2|].
+    split; [intros id Hid; discriminate|]. split.
+    + intros Hn. right. destruct (S4 Hn) as [Hs|(id & Hid)]; [congruence|]. exists id. auto.
+    + eapply xw_transport; [|exact S5]. apply xmono_refl_fields; xsimp; auto.
+  - pose proof (dinv_init_oreg _ _ _ D1) as Eo.
+    destruct (regAB x) as [i|] eqn:Ea.
+    + unfold XInv; xsimp. split; [exact D1|]. split; [exact D2|].
+      split; [reflexivity|]. split; [exact S2|]. split; [|split].
+      * intros id [= <-]. unfold regAB, first_some in Ea. rewrite Eo in Ea.
+        destruct (registered (h2 x)); congruence.
+      * intros _. left. discriminate.
+      * eapply xw_transport; [|exact S5]. apply xmono_refl_fields; xsimp; auto.
+    + unfold XInv; xsimp. split.
+      { destruct D1 as (I1 & _ & O1). split; [exact I1|]. split; [discriminate|exact O1]. }
+      split; [exact D2|]. split; [intros Hn; exfalso; apply Hn; reflexivity|]. split; [exact S2|].
+      split; [intros id Hid; discriminate|]. split.
+      * intros Hn. destruct (S4 Hn) as [Hs|Hs]; [congruence|right; exact Hs].
+      * eapply xw_transport; [|exact S5]. apply xmono_refl_fields; xsimp; auto.
+Qed.
+
+Lemma xstep_d2_inv a b x : XInv a b x -> XInv a b (xstep_d2 a b x).
+Proof.
+  intros HX. pose proof HX as (D1 & D2 & S1 & S2 & S3 & S4 & S5). unfold xstep_d2.
+  destruct (short2 x) eqn:Es; [exact HX|].
+  destruct (beg2 x) eqn:Eb.
+  - destruct (dinv_dial _ _ _ D2) as (D2' & Er & Ec & Eo & Ei).
+    destruct (dial_step (c21 a b) (h2 x) (oreg2 x)) as (h, o) eqn:Ed. cbn [fst snd] in *.
+    unfold XInv; xsimp. split; [exact D1|]. split; [exact D2'|].
+    split; [exact S1|]. split; [intros Hn; exfalso; apply Hn; reflexivity|].
+    split; [intros id Hid; rewrite Er; auto|]. split; [exact S4|].
+    eapply xw_transport; [|exact S5]. unfold xmono; xsimp. auto.
+  - destruct (regBA x) as [i|] eqn:Ea.
+    + unfold XInv; xsimp. split; [exact D1|]. split; [exact D2|].
+      split; [exact S1|]. split; [reflexivity|]. split; [exact S3|]. split; [exact S4|].
+      eapply xw_transport; [|exact S5]. apply xmono_refl_fields; xsimp; auto.
+    + unfold XInv; xsimp. split; [exact D1|]. split.
+      { destruct D2 as (I2 & _ & O2). split; [exact I2|]. split; [discriminate|exact O2]. }
+      split; [exact S1|]. split; [intros Hn; exfalso; apply Hn; reflexivity|].
+      split; [exact S3|]. split; [exact S4|].
+      eapply xw_transport; [|exact S5]. apply xmono_refl_fields; xsimp; auto.
+Qed.
+
+Lemma xstep_w1_ok a b x s :
+  XInv a b x -> sA x <> [] -> xw_inv x s -> xw_inv x (xstep_w1 x s).
+Proof.
+  intros (D1 & D2 & S1 & S2 & S3 & S4 & S5) Hn Hs.
+  destruct s; cbn [xstep_w1]; auto.
+  - destruct (regBA x) as [i|] eqn:Er; cbn; auto.
+    unfold regBA, first_some in Er. destruct (registered (h1 x)); [left|right]; congruence.
+  - destruct (Nat.eqb (markB x) 0) eqn:E0; cbn; auto.
+    apply Nat.eqb_eq in E0. unfold markB in E0.
+    assert (Ei : inflight (h1 x) = 0%nat) by lia.
+    assert (Ex : xout (beg2 x) (h2 x) = 0%nat) by lia.
+    destruct (S4 Hn) as [Hsh|(id & Hid)].
+    + destruct (short1 x) as [i|] eqn:Es; [|congruence].
+      pose proof (S3 _ eq_refl) as Ereg.
+      destruct D2 as (I2 & B2 & O2).
+      destruct (registered_ipc _ _ _ I2 Ereg) as (j & Hj).
+      destruct (beg2 x) eqn:Eb.
+      * unfold xout in Ex. destruct Hj as [Hj|Hj]; rewrite Hj in Ex; [discriminate|].
+        left. unfold regBA, first_some. destruct (registered (h1 x)); [discriminate|].
+        destruct (oreg2 x); [discriminate|]. exfalso. apply (O2 j). exact Hj.
+      * rewrite (B2 eq_refl) in Ereg. discriminate.
+    + destruct D1 as (I1 & _ & _). pose proof I1 as (Hi & (Hr & _) & _).
+      destruct (open_facts _ _ _ Hi Hid) as (_ & _ & H2).
+      destruct (rpc (h1 x)); unfold quiet in Hr; dest; try lia.
+      * rewrite H in H2. discriminate.
+      * destruct H0 as [(id' & R1 & _)|(_ & B & _)]; [left|right; exact B].
+        unfold regBA, first_some. rewrite R1. discriminate.
+  - cbn in Hs. destruct (regBA x) as [i|] eqn:Er; cbn.
+    + unfold regBA, first_some in Er. destruct (registered (h1 x)); [left|right]; congruence.
+    + destruct Hs as [Hs|Hs]; [congruence|exact Hs].
+Qed.
+
+Theorem xstep_inv a b x e : XInv a b x -> XInv a b (xstep a b x e).
+Proof.
+  intros HX. pose proof HX as (D1 & D2 & S1 & S2 & S3 & S4 & S5).
+  destruct e as [| | | | |k]; cbn [xstep].
+  - apply xstep_d1_inv; auto.
+  - apply xstep_d2_inv; auto.
+  - destruct (beg1 x) eqn:Eb; [|exact HX].
+    destruct (dinv_r _ _ _ D1) as (D1' & Mr & Mc & Ei).
+    unfold XInv; xsimp. split; [exact D1'|]. split; [exact D2|].
+    split; [intros Hn; apply S1 in Hn; congruence|]. split; [exact S2|]. split; [exact S3|]. split.
+    + intros Hn. destruct (S4 Hn) as [Hs|(id & Hid)]; [left; exact Hs|right; exists id; congruence].
+    + eapply xw_transport; [|exact S5]. unfold xmono; xsimp. auto.
+  - destruct (beg2 x) eqn:Eb; [|exact HX].
+    destruct (dinv_r _ _ _ D2) as (D2' & Mr & Mc & Ei).
+    unfold XInv; xsimp. split; [exact D1|]. split; [exact D2'|].
+    split; [exact S1|]. split; [intros Hn; apply S2 in Hn; congruence|].
+    split; [intros id Hid; apply Mr; auto|]. split; [exact S4|].
+    eapply xw_transport; [|exact S5]. apply xmono_refl_fields; xsimp; auto.
+  - destruct (ret1 x) as [i|] eqn:Er; [|exact HX].
+    unfold XInv; xsimp. split; [exact D1|]. split; [exact D2|]. split; [exact S1|]. split; [exact S2|].
+    split; [exact S3|]. split.
+    + intros _. unfold ret1 in Er. destruct (short1 x) eqn:Es; [left; discriminate|right].
+      exists i. destruct D1 as ((Hi & _) & _). apply (returned_open (c12 a b)); auto.
+    + apply Forall_app; split.
+      * eapply xw_transport; [|exact S5]. apply xmono_refl_fields; xsimp; auto.
+      * constructor; [cbn; auto|constructor].
+  - unfold XInv; xsimp. split; [exact D1|]. split; [exact D2|]. split; [exact S1|]. split; [exact S2|].
+    split; [exact S3|]. split.
+    + intros Hn. apply S4. eapply upd_nil_inv; eauto.
+    + destruct (sA x) eqn:Ew; [destruct k; constructor|].
+      assert (Hne : sA x <> []) by congruence. rewrite <- Ew.
+      eapply (xw_transport x); [apply xmono_refl_fields; xsimp; auto|].
+      apply upd_Forall; [|rewrite Ew; exact S5].
+      intros s Hs. apply (xstep_w1_ok a b); auto.
+Qed.
+
+Theorem xrun_inv a b sched : XInv a b (xrun a b sched).
+Proof.
+  unfold xrun, xrun_from. generalize (xinv_init a b). generalize xinit.
+  induction sched as [|e l IH]; intros x H; cbn; auto. apply IH. apply xstep_inv. exact H.
+Qed.
+
+(* C20 for the cross dial: for every interleaving of the two Connects, the two handlers, A's
+   stream opens and B's wrappers -- once A's Connect(B) has reported success (after its own
+   handshake or through the shortcut), it named B's proven identity, and no stream A opened is
+   reset by B as coming from an unknown peer; what reached B's handlers carries A's proven
+   identity.  Premise as in the one-directional theorem: B's key signer is consistent with B's own
+   network identity (otherwise B refuses handshake 1 after A's Connect succeeded). *)
+Theorem usable_cross a b sched id :
+  self_consistent b ->
+  ret1 (xrun a b sched) = Some id ->
+  (id = proven_ident b /\ sig_addr b = Some (pid_addr b)) /\
+  Forall (fun s => s <> WUnknown /\ s <> WTorn /\
+                   forall j, s = WHandled j -> j = proven_ident a /\ sig_addr a = Some (pid_addr a))
+         (sA (xrun a b sched)).
+Proof.
+  intros Hc Er. pose proof (xrun_inv a b sched) as (D1 & D2 & S1 & S2 & S3 & S4 & S5).
+  set (x := xrun a b sched) in *.
+  destruct D1 as (I1 & B1 & O1). destruct D2 as (I2 & B2 & O2).
+  assert (Hcl : r_closed (h1 x) = false).
+  { destruct (r_closed (h1 x)) eqn:Ecl; auto. exfalso.
+    unfold ret1 in Er. destruct (short1 x) as [i|] eqn:Es.
+    - assert (Eb : beg1 x = false) by (apply S1; congruence).
+      rewrite (B1 Eb) in Ecl. discriminate.
+    - pose proof I1 as (Hi & _). pose proof (returned_open _ _ _ Hi Er) as Eo.
+      apply (no_reason (c12 a b) (h1 x) id I1 Hc Eo). apply closed_reason; auto. }
+  split.
+  - unfold ret1 in Er. destruct (short1 x) as [i|] eqn:Es.
+    + injection Er as <-. pose proof (registered_vI _ _ _ I2 (S3 _ eq_refl)) as V.
+      apply verify_req_self in V. cbn in V. tauto.
+    + destruct (returned_identity (c12 a b) (h1 x) id I1 Er) as (E1 & E2). auto.
+  - eapply Forall_impl; [|exact S5]. intros s Hs.
+    destruct s as [| | |j0| |]; cbn in Hs; try contradiction; try congruence;
+      (split; [discriminate|]; split; [discriminate|]); intros j Ej; try discriminate.
+    injection Ej as <-. destruct Hs as [Hs|Hs].
+    + pose proof (registered_vI _ _ _ I1 Hs) as V. apply verify_req_self in V. cbn in V. tauto.
+    + rewrite Hs in O2. destruct I2 as ((Hi & _) & _).
+      destruct O2 as [O2|O2]; rewrite O2 in Hi; dest;
+        match goal with V : vR _ _ |- _ => apply verify_req_self in V; cbn in V; tauto end.
+Qed.
+
+(* both nodes dial; B is held before it verifies A's final message and before its own addPeer;
+   A opens two streams: they wait; then everything finishes *)
+Example usable_cross_nonvacuous :
+  ret1 (xrun ex_ini ex_rsp x_hs) = Some (proven_ident ex_rsp) /\
+  sA (xrun ex_ini ex_rsp (x_hs ++ [XO; XO; XW 0; XW 1; XW 0; XW 1])) = [WWait; WWait] /\
+  markB (xrun ex_ini ex_rsp x_hs) = 2%nat /\ regBA (xrun ex_ini ex_rsp x_hs) = None /\
+  sA (xrun ex_ini ex_rsp (x_hs ++ [XO; XO; XW 0; XW 1] ++ [XD2; XD2; XD2] ++ repeat XR1 3 ++
+                          [XW 0; XW 0; XW 1; XW 1])) =
+  [WHandled (proven_ident ex_ini); WHandled (proven_ident ex_ini)] /\
+  (* the shortcut: B's handshake alone, then A's Connect *)
+  short1 (xrun ex_ini ex_rsp ([XD2; XD2] ++ repeat XR2 5 ++ repeat XD2 5 ++ repeat XR2 4 ++ [XD1])) =
+  Some (proven_ident ex_rsp) /\
+  sA (xrun ex_ini ex_rsp (x_full 2)) = [WHandled (proven_ident ex_ini); WHandled (proven_ident ex_ini)].
+Proof. repeat split; vm_compute; reflexivity. Qed.
+
+Lemma C20_cross_stmt : forall (a b : node) (sched : list xwho) (id : ident),
+  ks_addr b = pid_addr b ->
+  ret1 (xrun a b sched) = Some id ->
+  (id = (pid_addr b, ptype b) /\ sig_addr b = Some (pid_addr b)) /\
+  Forall (fun s => s <> WUnknown /\ s <> WTorn /\
+                   forall j, s = WHandled j ->
+                             j = (pid_addr a, ptype a) /\ sig_addr a = Some (pid_addr a))
+         (sA (xrun a b sched)).
+Proof. exact usable_cross. Qed.
+
 (* ---- another connection of the same peer closing is invisible ------------------------------------ *)
 Lemma conn_close_other_inert v c s1 s2 :
   run v c (s1 ++ ConnCloseOther :: s2) = run v c (s1 ++ s2).
